@@ -30,7 +30,7 @@ for T, names in (("s64", ["div", "rem", "divi", "remi", "divf", "divfi", "mod", 
           unwind=3, functions=["cfun_it_%s_%s" % (T, name)],
           replay={"kind": "janet", "vars": {"A": {"lhs": r"g_val\[0l?\]", "fmt": "sbits"}, "B": {"lhs": r"g_val\[1l?\]", "fmt": "sbits"}},
                   "script": "(def a (int/%s \"{A}\"))\n(def b (int/%s \"{B}\"))\n(def m (get a :%s))\n(print \"calling\")\n(try (print (m a b)) ([e] (print \"raised: \" e)))\n" % (T, T, {"div": "/", "rem": "%", "divi": "r/", "remi": "r%", "divf": "div", "divfi": "rdiv", "mod": "mod", "modi": "rmod"}[name])}, **kw)
-DIVS = ["1", "-1", "2", "-2", "3", "-3", "7", "-7", "10", "255", "-255", "2147483648LL", "-2147483648LL", "4294967297LL", "-4294967297LL",
+DIVS = ["1", "-1", "2", "-2", "3", "-3", "7", "-7", "10", "2147483648LL", "-2147483648LL", "4294967297LL", "-4294967297LL",
         "9007199254740992LL", "9223372036854775807LL", "-9223372036854775807LL", "(-9223372036854775807LL-1)"]
 QUICKD = {"-1", "3", "-7", "(-9223372036854775807LL-1)"}
 for T, names in (("s64", ["div", "rem", "divi", "remi", "divf", "divfi", "mod", "modi"]), ("u64", ["div", "rem", "divi", "remi", "mod", "modi"])):
